@@ -22,7 +22,7 @@ func init() {
 		Level: "fault_enumeration",
 		Rule: "E-ENV fault enumeration on the real control and transfer paths with a reference upload client: for data sizes {0,1,8,40,33000} with and without a resource fork / fork preservation, the upload stream (preamble + flattened file) is cut " +
 			"at every byte offset (around every structural boundary for the 33000-byte file) by a reset or by a clean end-of-stream, the upload is resumed from the offset the server reports, cut again (all pairs for the small files), and completed; " +
-			"after every cut and at the end the directory is compared with the reference; plus pre-existing target, resume with nothing to resume, and a final download; distinct = distinct (size, forks, cut-position classes, observation)",
+			"after every cut and at the end the directory is compared with the reference; after the first cut a download of the final name is attempted (a partial upload must not be served as a complete file); plus pre-existing target, two uploads of one free name granted before either publishes, resume with nothing to resume, and a final download; distinct = distinct (size, forks, cut-position classes, observation)",
 		Assumptions: []string{"a cut delivers a prefix of the stream in order (TCP); up to 2 cuts (thorough 3) before completion", "re-uploading without the resume option over a partial file is not part of the enumerated histories (unspecified)"},
 		Run:            runC09,
 		Replay:         replayC09,
@@ -41,6 +41,7 @@ type c09Case struct {
 	Existing bool   `json:"existing"` // a complete file of that name already exists
 	NoResume bool   `json:"noresume"` // ask to resume although nothing was uploaded
 	OwnRoot  bool   `json:"ownroot"`  // the uploading account has its own file root; the server-wide root holds a same-named decoy partial
+	Twice    bool   `json:"twice"`    // two upload requests for the name are granted while it is free; the second transfer starts after the first has published
 }
 
 func c09Run(w *explore.Worker, c c09Case) {
@@ -124,6 +125,55 @@ func c09Run(w *explore.Worker, c c09Case) {
 			}
 		}
 
+		// probeDownload: while only part of the data fork has arrived, the final name must not be
+		// downloadable as if it were a complete file
+		probeDownload := func(when string) {
+			id := u.Req(ref.TDownloadFile, ref.FS(ref.FFileName, "up.bin"), ref.F(ref.FFilePath, ref.PathBytes("Uploads")))
+			world.Quiet()
+			rep := u.Reply(id)
+			if rep == nil || rep.Err != 0 {
+				return
+			}
+			refnum, _ := rep.Get(ref.FRefNum)
+			conn := wd.DialTransfer("10.0.0.1:2888")
+			conn.Feed(ref.Preamble(refnum, 0))
+			world.Settle(10 * time.Second)
+			conn.CloseWrite()
+			world.Settle(10 * time.Second)
+			if p, err := ref.ParseFlat(conn.All()); err == nil && p.DataDecl > 0 && len(p.Rest) >= int(p.DataDecl) {
+				fail("partial-upload-served-as-a-complete-file-under-its-final-name", fmt.Sprintf("%s: a download of the final name delivered a well-formed file of %d data bytes although only %d of %d bytes have been uploaded", when, p.DataDecl, delivered, len(data)))
+			}
+		}
+
+		if c.Twice {
+			// two clients (here: two requests) are granted an upload of the same free name; the first transfer
+			// completes and publishes; the second must not replace the published file
+			ref1, _, ok1 := request(false)
+			ref2, _, ok2 := request(false)
+			if !ok1 {
+				fail("upload-request-refused", "first request")
+				return
+			}
+			c1 := wd.DialTransfer("10.0.0.1:2001")
+			c1.Feed(append(ref.Preamble(ref1, 0), ref.FlatFile(info, data, rsrc)...))
+			world.Settle(10 * time.Second)
+			if got, err := os.ReadFile(final); err != nil || !bytes.Equal(got, data) {
+				fail("completed-upload-not-published", fmt.Sprintf("first of two uploads: %v, %d bytes", err, len(got)))
+				return
+			}
+			if ok2 {
+				other := bytes.Repeat([]byte("Z"), len(data)/2+3)
+				c2 := wd.DialTransfer("10.0.0.1:2002")
+				c2.Feed(append(ref.Preamble(ref2, 0), ref.FlatFile(info, other, nil)...))
+				world.Settle(10 * time.Second)
+				if got, _ := os.ReadFile(final); !bytes.Equal(got, data) {
+					fail("existing-file-overwritten", fmt.Sprintf("a second upload granted before the first one published replaced the published file: %d bytes (equal prefix %d), the published upload had %d", len(got), commonPrefix(got, data), len(data)))
+				}
+			}
+			w.Outcome(fmt.Sprintf("twice size=%d second-granted=%v", sizeClass(c.Size), ok2))
+			return
+		}
+
 		if c.Existing {
 			_, _, ok := request(false)
 			if ok {
@@ -204,6 +254,9 @@ func c09Run(w *explore.Worker, c c09Case) {
 					break
 				}
 				checkPartial(fmt.Sprintf("after cut %d at stream offset %d", ai, cut))
+				if ai == 0 && delivered > 0 && delivered < len(data) {
+					probeDownload(fmt.Sprintf("after cut %d at stream offset %d", ai, cut))
+				}
 				obs = append(obs, fmt.Sprintf("cut@%s", cutClass(cut, hdr, len(stream))))
 				continue
 			}
@@ -327,7 +380,7 @@ func c09Cases(thorough bool) []c09Case {
 				}
 			}
 		}
-		cs = append(cs, c09Case{Size: sz, Existing: true}, c09Case{Size: sz, NoResume: true})
+		cs = append(cs, c09Case{Size: sz, Existing: true}, c09Case{Size: sz, NoResume: true}, c09Case{Size: sz, Twice: true}, c09Case{Size: sz, Twice: true, Rsrc: true, Preserve: true})
 	}
 	return cs
 }
